@@ -66,6 +66,10 @@ class ModbusDevice:
 
     # register helpers
     def is_refused(self, start, n):
+        if getattr(self, 'refuse_mode', 'touch') == 'cover':
+            # another kind of inverter: it refuses the BLOCK reads that span an optional range it does not serve as a block,
+            # short reads inside the range are answered (e.g. a firmware limit on what one request may span)
+            return any(start <= lo and hi <= start + n - 1 for lo, hi in self.refused)
         return any(lo <= a <= hi for a in range(start, start + n) for lo, hi in self.refused)
 
     def on_connect(self):
